@@ -308,7 +308,8 @@ def prop(ctx, case):
         for origin, sched, _m in ex.schedules(case["pins"], enum_cap=0, extremal=1):
             c = engine.to_candidate(spec, sched)
             cm = map_candidate(spec, twin, m, c)
-            r, twin_sched, _ = sb.admitted(cm)
+            # the horizon of a problem without a declared horizon is part of the schedule (utilisation depends on it)
+            r, twin_sched, _ = sb.admitted(cm, pin_horizon=True)
             ctx.evaluation()
             if r == "unknown":
                 ctx.inconclusive += 1
@@ -358,8 +359,19 @@ def prop(ctx, case):
             if va is None or vb is None:
                 ctx.inconclusive += 1  # one optimisation gave up (z3 'unknown'): both verdicts were 'sat' above
             elif va != vb:
-                viol("optima_differ", {"original": va, "twin": vb})
-                return
+                # an optimisation may have been cut short (time limit, z3 'unknown'): the difference counts only if the
+                # problem with the worse value definitely admits nothing as good as the other one's value
+                kind = ref.objective_kind(spec["objectives"][0])
+                worse_is_twin = (vb > va) if kind == "minimize" else (vb < va)
+                wspec, good = (twin, va) if worse_is_twin else (spec, vb)
+                sess = probe.Session(wspec, seed + 7, {"optimizer": "incremental"})
+                tvar = adapter._get(adapter._get(sess.h.solver, "_objective"), "_target")
+                st_, _, _ = sess.check([tvar <= good] if kind == "minimize" else [tvar >= good], extras=False)
+                if st_ == "unsat":
+                    viol("optima_differ", {"original": va, "twin": vb})
+                    return
+                ctx.inconclusive += 1
+                ctx.event("optimisation_cut_short_or_unknown")
     if (moved_names >= 2 or moved_perm >= 1) and n_cross >= 1 and (any(t["optional"] for t in spec["tasks"]) or spec["selects"] or spec["cumulative"]):
         ctx.nontrivial_case({"spec": spec, "map": m, "perms": perms})
         ctx.event("nontrivial")
